@@ -368,7 +368,8 @@ func (db *DB) appendLogRecordWithLock(logRecord *datafile.LogRecord) (*datafile.
 func (db *DB) appendLogRecord(logRecord *datafile.LogRecord) (*datafile.DataPos, error) {
 	// 活跃文件剩余空间不足, 新建数据文件作为新的活跃文件
 	maxSize := datafile.GetLogRecordDiskSize(len(logRecord.Key), len(logRecord.Value))
-	if db.activeFile.Size()+int64(maxSize) > db.options.DataFileSize {
+	// 活跃文件为空时无需更新, 避免单条超限记录遗留空文件
+	if db.activeFile.Size() > 0 && db.activeFile.Size()+int64(maxSize) > db.options.DataFileSize {
 		if err := db.sync(); err != nil {
 			return nil, err
 		}
